@@ -267,8 +267,10 @@ def process_ept_map_result(c):
     if not c.verifying:
         resp = c.param("response")
         c.raises("ValueError", when=None)
-        c.result(T.int(0, 0xFFFF))
-        c.ensures("port-range", lambda r: True)
+        c.raises("IndexError", when=None)
+        port = c.fresh(T.int(0, 0xFFFF), "mapped_port")
+        c.effect(lambda: c.ctx.event("ept_port", response=resp, port=port))
+        c.returns(port)
         return
     h, h_rope = handle_fresh(c, "handle")
     towers, octets, raws = towers_fresh(c, RES_TOWERS, bound(1, 2))
